@@ -189,6 +189,29 @@ def install_as_const(I, owner):
     import markupsafe
     I.specs[("fn", id(markupsafe.Markup))] = A.abstract_fn("Markup", returns="obj")
 
+    # /repo af2d145: _FilterTestCommon.as_const refuses (Impossible) an awaitable result in an async environment and closes a
+    # coroutine first.  inspect.isawaitable / iscoroutine are some boolean functions of the result; close() returns None.
+    I.specs[("fn", id(inspect.isawaitable))] = A.abstract_fn("inspect.isawaitable", returns="bool")
+    I.specs[("fn", id(inspect.iscoroutine))] = A.abstract_fn("inspect.iscoroutine", returns="bool")
+    prev_method_obj = I.specs.get("method_obj")
+
+    def method_obj(I_, st, args, kwargs, node):
+        if args[1] == "close" and len(args) == 2:
+            A.call_event(st, "coroutine.close", args[:1], kwargs, None, node)
+            return [(st, None)]
+        return prev_method_obj(I_, st, args, kwargs, node) if prev_method_obj else None
+
+    I.specs["method_obj"] = method_obj
+    prev_getattr_obj = I.specs.get("getattr_obj")
+
+    def getattr_obj(I_, st, args, kwargs, node):
+        from pyvc.values import BoundMethod
+        if args[1] == "close":
+            return [(st, BoundMethod(args[0], "close"))]
+        return prev_getattr_obj(I_, st, args, kwargs, node) if prev_getattr_obj else None
+
+    I.specs["getattr_obj"] = getattr_obj
+
     def call_obj(I_, st, args, kwargs, node):
         return A.abstract_fn("call_obj", returns="obj", raises=[("any", Exception)])(I_, st, args, kwargs, node)
 
